@@ -4,7 +4,9 @@
 //!   rt    : legacy_password_encrypt, then legacy_password_decrypt / decrypt_user_identity_token_password with the same
 //!           nonce and with the nonce variants TLC listed;
 //!   craft : plaintext built here from the decision table, encrypted block-wise with openssl (block size from the spec);
-//!   arb   : arbitrary ciphertext byte strings.
+//!   arb   : arbitrary ciphertext byte strings;
+//!   bytes : nonce and plaintext given byte by byte by the specification (length prefix / body / nonce classes of a
+//!           hostile client), encrypted correctly with openssl.
 //! Outcomes are abstract: "ok-same" (the original password), "ok-other", "err", "panic".
 //!
 //! Concretisation contract: password characters come from [a-z], U+0100.., U+4000.., U+1F600.. (all continuation bytes
@@ -184,6 +186,22 @@ impl Rec {
     }
 }
 
+impl Rec {
+    /// outcome with the bytes of the returned password
+    fn raw(&mut self, f: impl FnOnce() -> Result<String, opcua::types::StatusCode>) -> Value {
+        match guard(f) {
+            Ok(Ok(p)) => json!({"o": "ok", "pw": p.as_bytes()}),
+            Ok(Err(_)) => json!({"o": "err", "pw": []}),
+            Err(site) => {
+                if self.site.is_none() {
+                    self.site = Some(site_sig(&site));
+                }
+                json!({"o": "panic", "pw": []})
+            }
+        }
+    }
+}
+
 fn token(secret: &ByteString, uri: &str) -> UserNameIdentityToken {
     UserNameIdentityToken {
         policy_id: UAString::null(),
@@ -236,6 +254,17 @@ pub fn run_case(case: &Value, out: &mut Obs) {
             let t2 = token(&secret, "http://example.org/unknown-encryption-algorithm");
             let u = rec.outcome(Some(&pw), || decrypt_user_identity_token_password(&t2, &n, key));
             json!({"enc": "ok", "same": {"legacy": sl, "token": st}, "variants": vars, "algs": {"other": o, "unknown": u}})
+        }
+        "bytes" => {
+            // nonce and plaintext are given byte by byte by the specification; encrypted correctly, then decrypted
+            let bytes = |v: &Value| -> Vec<u8> { v.as_array().map(|a| a.iter().map(|x| x.as_u64().unwrap_or(0) as u8).collect()).unwrap_or_default() };
+            let n = bytes(&c["nonce"]);
+            let plain = bytes(&c["pt"]);
+            let secret = ByteString::from(rsa_encrypt(bits, pad, geti(exp, "block") as usize, &plain));
+            let a = rec.raw(|| legacy_password_decrypt(&secret, &n, key, padding(pad)));
+            let t = token(&secret, uri);
+            let b = rec.raw(|| decrypt_user_identity_token_password(&t, &n, key));
+            json!({"out": {"legacy": a, "token": b}})
         }
         "craft" => {
             let n = nonce(&c["nonce"]);
